@@ -118,6 +118,14 @@ def check(run):
             f = helpers.random_weights(rng, s, eM)
         cases.append((L, P, s, eM, f))
     run.attempt("corr:corr_evalH", kern.corr_evalH, run, cases, rotors if not quick else rotors[:14] + rotors[-3:], preps, poison=float("nan"))
+    # the default (matrix) route from the source: generated Wigner.sYlm body + generated slice bounds / contraction, numerically; calculators
+    # whose ell_min is 0, 1 or |s| (evaluate accepts ell_min <= |s|) — the slices start at different places in each
+    mcases = []
+    for (L, P, s, eM, f) in cases:
+        for emin in sorted({0, min(1, abs(s)), abs(s)}):
+            if emin <= L and abs(s) <= P:
+                mcases.append((L, P, emin, s, eM, f))
+    run.attempt("corr:corr_evalM", kern.corr_evalM, run, mcases, rotors if not quick else rotors[:8] + rotors[-2:], preps)
     gap(run, quick)
     # memory layouts of the weights and of the rotor array
     from .. import layouts
